@@ -108,175 +108,333 @@ A , char[
 string_
     `" ++ [233]%N ++ runes_of_ascii "` ,}
 ")).
-Eval vm_compute in ("<<<M1478>>>" ++ check (runes_of_ascii "options {
-    StringPrefixLenType = u16;// c5a
-    // c5b
-    ArrayPrefixLenType = u32;
-    // c9
-    FixedStringPadFromLeft = true;// c13
-    FixedStringPadChar = '0';// c17
-}// c18
+Eval vm_compute in ("<<<M1710>>>" ++ check (runes_of_ascii "// top
+		options 
+        // c0
 
-packet Cancel {
-}
+  {
+	LittleEndian 
+	    // c2
+=	false
+        // c4
+    ; 
+    // c5
+	StringPrefixLenType
+// c6
+	=  
+  // c7
+  u8 
+// c8
+  ;  // c9
+ArrayPrefixLenType// c10
+  	= 	 // c11a
+	// c11b
+	u64 
+    // c12
+    	; 	 // c13a
+  // c13b
+		FixedStringPadFromLeft
+	    // c14
+    	=	false;
+	// c17
+  FixedStringPadChar  // c18a
 
-packet Party {
-}
+	// c18b
+  = 
+  // c19
 
-// c26
-packet Logon {
-}
+	' '  // c20a
 
-packet Ack {
-}
+// c20b
+  ; 
+} 
+
+// c22
+  packet
+    // c23
+
+Reject // c24a
+// c24b
+{ 	 // c25a
+
+	// c25b
+    repeat char[ 
+4  ] 	 // c29a
+
+	// c29b
+    seqNo // c30
+  	, 	 // c31
+		string // c32
+
+Px
+
+// c33
+    	,
 
 // c34
-packet Logout {
-    repeat InSym87 {
-        InClordid94 {
-            // c42
-            string clOrdID,// c45a
-        },
-        // c47
-        string Px,
+  }
+root
+packet
+
+Trade 	 // c38a
+    // c38b
+	{ 	 // c39a
+
+// c39b
+
+@rightPad 
+( // c41
+    '0'  // c42
+
+) 
+        // c43
+	char[
+        // c44
+	2 	 // c45
+    ]
+	msgKind// c47
+
+	,	// c48
+    repeat
+	// c49
+f64
         // c50
-        i16 Qty,
-        // c53
-        repeat InCount71 {
-            // c56
-            repeat Cancel,
-            // c59
-            uint16 Tail,
-            // c62
-            char[2] x,
-            // c67
-            repeat string Ref,
-        },
-        // c73
-        Cancel,// c75a
-    },// c77
+
+	price 	 // c51a
+	// c51b
+, InAcct79 
+    // c53
+  { 
+    // c54
+
+  repeat	// c55a
+
+  // c55b
+
+	Reject 
+        // c56
+	, 
+// c57
+zchar[	// c58a
+
+// c58b
+  	7  // c59
+
+] 	 // c60a
+  	// c60b
+
+OrderId
+
+    // c61
+
+,
+// c62
+		}	// c63
+    ,// c64
+  Reject  // c65a
+
+// c65b
+	,// c66
+
 }
 
-// c78
-root packet Order {
-    repeat string tag7,
-    @leftPad(' ')
-    // c90a
-    // c90b
-    char[3] Px,
-    // c95
-    u8 Qty,
-    // c98
-    match Qty as Body {
-        // c103
-        [
-            28,
-            62
-        ] : Logon,
-        148 : Ack,
-        // c115
-        88 : Party,
-        184 : Cancel,
-        // c123a
-    },// c125
-    u16 Note @calculatedFrom(""CRC32""),
-}// c132")).
-Eval vm_compute in ("<<<M1701>>>" ++ check (runes_of_ascii "root packet crc {
-    @lengthOf(As)
-    @calculatedFrom(""\" ++ [233]%N ++ runes_of_ascii """)
-    zchar[4294967296] MetaDataX `doc`,/// triple
-    rootA @calculatedFrom(""it's""),
-    @tag(65535)
-    @tag(7)
-    @tag(00)
-    len @lengthOf(A) `two words`,
-    // trailing space 
-    // " ++ [128512]%N ++ runes_of_ascii " emoji
-    string rootA @lengthOf(pack),
-    // " ++ [128512]%N ++ runes_of_ascii " emoji
-    // trailing space 
-    repeat zchar,
-    @calculatedFrom(""abc"")
-    @leftPad('\x00')
-    @rightPad()
-    match x_y_z as Z9_ {
-        ""it's"" : Logon,
-        ""x y"" : Packet,
-        ""abc"" : trueish,
-        4294967296 : repeatCount,
-        """ ++ [128512]%N ++ runes_of_ascii """ : x_y_z,
-    },
-    char[10] stringy `it's`,
-    @leftPad('\x00')
-    rootA @lengthOf(i64_),
+")).
+Eval vm_compute in ("<<<M1835>>>" ++ check (runes_of_ascii "  options 
+    //x
+    // @lengthOf(
+  { Foo	= ""// no comment"" 
+/// triple
+//	t
+;	}
+packet
+    float{ }packet
+
+    len  {
+@lengthOf(  _x
+) stringy
+{
+
+metadata
+    @calculatedFrom( ""a\\"" ) ,
+
+}
+, 
+//x
+//
+
+  }packet
+    asx
+	{@tag(
+    0  )
+	repeat float64 A `say ""hi""` ,
+    //
+      // trailing space 
+    i16
+    int 
+`say ""hi""`
+	,
+@calculatedFrom(
+
+    """ ++ [128512]%N ++ runes_of_ascii """
+)	lengthOf Header
+`two words`
+	,
+
+    f32a  zchar	,
+
+@rightPad (
+
+'0' )
+	repeat	string_ 
+    // packet A { u8 x, }
+  chars
+	``
+
+, 
+@tag(
+4294967296
+) @calculatedFrom(
+    ""a	b""
+
+)  repeat msg_type
+
+,@leftPad(
+
+)
+
+repeat	f64
+_x
+
+    ,
+
+    repeat As
+    {  Logon @lengthOf(
+calculatedFrom	) `two words`  ,
+
+repeat
+u64	o
+`u8 x,`
+	,  } ,
+@calculatedFrom( ""packet"" 
+)
+
+    repeat // @lengthOf(
+		uint8
+u,
 }
 
-MetaData falsey {
-    Packet repeatCount `tab	here`,
-}
+    packet uint8x {  @leftPad
+	( 
+'0' ) 
+  //	t
+	//x
+  zchar[ 
 
-MetaData string_ {
-    float64 roots `line1
-        line2`,
-    char As `
-        `,
-    zchar[65535] falsey `a\`,
-    A T,
-    _x metadata,
-}
+    // packet A { u8 x, }
+// " ++ [27880; 37322]%N ++ runes_of_ascii "
+  255
+]
+	metadata `a\`
 
-packet _x {
-    zchar[255] string_ @lengthOf(u128) `{ , }`,
-}
+,	//
+    }// `tick` ""quote"" 'q'
+")).
+Eval vm_compute in ("<<<M1380>>>" ++ check (runes_of_ascii "
 
-root packet Packet {
-    repeat lengthOf,
-}")).
-Eval vm_compute in ("<<<M1640>>>" ++ check (runes_of_ascii "options {
-    string_ = false;
-    falsey = char[4294967296];
-}
+  options 
+{
+	FixedStringPadFromLeft	= true  ;
+FixedStringPadChar 
+='0' ; 
+} 
+packet
+Leg
 
-packet zchar {
-    match float as len {
-        [""" ++ [233]%N ++ runes_of_ascii "t" ++ [233]%N ++ runes_of_ascii """] : matchKey,
-        3 : u,
-        [4294967296, ""1""] : zchar,
-    },
-}
+    {repeat	InSym93
+    {zchar[  3
+] Acct
 
-MetaData T {
-}
+    ,
+string
+	Side2,i32 Flags
+    ,
+f32  Note,
+	i32
+msgKind	,
+	} ,	f64 
+Note,  uint16 Px  , }
+packet Quote{
+	zchar[ 2 ]OrderId
+    ,
+}packet Ack
+	{ repeat	string	lastPx
+,zchar[ 4  ] 
+price
+	,
 
-packet packetx {
-    uint16 uint8x @calculatedFrom(""it's""),
-    stringy {
-        i16 crc `{ , }`,
-    },
-    zchar[00] x,
-    zchar {
-        uint64 tag,
-        zchar f32a `say ""hi""`,
-        uint32 A `{ , }`,
-        match _x as falsey {
-            [007, """ ++ [128512]%N ++ runes_of_ascii """] : matchKey,
-            // " ++ [128512]%N ++ runes_of_ascii " emoji
-            [0123456789, 3] : T,
-            // " ++ [128512]%N ++ runes_of_ascii " emoji
-            // `tick` ""quote"" 'q'
-            1 : Foo,
-        },// trailing space 
-    },
-    A,
-    zchar[4294967296] string_ @lengthOf(float),
-    match rootA as As {
-        [
-            255, 0123456789, ""it's"", """ ++ [233]%N ++ runes_of_ascii "t" ++ [233]%N ++ runes_of_ascii """, ""{,}"",
-            ""abc"", """ ++ [233]%N ++ runes_of_ascii "t" ++ [233]%N ++ runes_of_ascii """
-        ] : int,
-        4294967296 : tag,
-    },
-}")).
+uint32
+OrderId
+    ,
+
+    Quote
+
+, int8 Acct
+,
+    }	packet Fill	{
+
+    repeat
+Leg	, @rightPad
+
+    ('0' )char[11	] Note,f64
+    Px
+
+, @rightPad	( '\x00'
+    )
+char[
+
+    5
+	] Flags ,
+zchar[
+
+    9
+
+    ] x ,
+string msgKind,} 
+root	packet
+
+Order
+	{
+	Leg
+, repeat
+Ack
+,@rightPad	('\x00'
+
+) 
+char[
+	3 ]
+
+Side2 ,
+    repeat 
+char[	1	]	seqNo ,	u16
+
+    clOrdID, match
+clOrdID as Body  {
+198  :Leg
+
+    , 
+23	:
+    Quote, 13
+
+    :Ack ,159 :
+    Fill ,
+
+    } 
+, u32  venue
+@calculatedFrom(
+	""CRC32""
+
+    ) ,}
+")).
 Eval vm_compute in ("<<<M1408>>>" ++ check (runes_of_ascii "packet leftPad {
     //
     i8 stringy @calculatedFrom(""" ++ [128512]%N ++ runes_of_ascii """),
@@ -609,21 +767,61 @@ options {
     // c38
     T = '\x00'
 }// c42a")).
-Eval vm_compute in ("<<<M370>>>" ++ check (runes_of_ascii "  root packet trueish // " ++ [128512]%N ++ runes_of_ascii " emoji
-{ char[] MetaDataX , @leftPad (
-    // trailing space 
-    '0' )match float as
-//x
-// trailing space 
-crc { 0123456789 :// " ++ [27880; 37322]%N ++ runes_of_ascii "
-chars	, ""{,}"" : i8i8,
+Eval vm_compute in ("<<<M1310>>>" ++ check (runes_of_ascii "
+packet
+A
+	{
+
+u8 a
+	, } packet
+    B 
+{ u16 b
+,
+	} packet
+    C 
+{	u32 
+c,
+
 }
-, f32a
-    // " ++ [128512]%N ++ runes_of_ascii " emoji
-    f32a `tab	here` ,// " ++ [128512]%N ++ runes_of_ascii " emoji
-@lengthOf( Foo )
-    Packet@calculatedFrom( """ ++ [28040; 24687]%N ++ runes_of_ascii """ ) `it's` , }
-")).
+	root
+    packet
+
+    M
+	{u16
+
+    Kc ,
+u16 Kb
+	, u16
+    Ka
+
+,
+match  Kc
+
+    as
+X
+	{9
+:A
+
+    ,
+10
+:B  , } ,match	Kb  as
+Y{	2
+: C
+,  1 :A
+
+,
+
+} ,  match	Ka
+    as
+Z {
+1 :
+B	, 
+}, A 
+,B
+, C
+,
+
+    }")).
 Eval vm_compute in ("<<<M1314>>>" ++ check (runes_of_ascii "packet MDSnapshotZZ {
     u8 a,
 }
